@@ -549,6 +549,11 @@ class Generator:
                 mp = it.modpath
             elif it.kind in ('raw', 'spec') and it.modpath:
                 mp = it.modpath
+            elif it.kind == 'fn' and it.impl_header is not None and ' for ' in it.impl_header and 'module' in it.entry.opts:
+                # trait impls may be placed in a module of their own (opt `module=NAME`): the impl headers of the
+                # expansion name traits unqualified (`impl Mul for ..`), which clashes at the crate root with
+                # hoisted local items of the same name (R7 `struct Mul` of basecase_div_rem)
+                mp = tuple(subst(it.entry.opts['module'], self.digit).split('::'))
             else:
                 mp = ()
             node = tree
@@ -579,9 +584,15 @@ class Generator:
                             merged_stub[id(grp[0])] = merge_stub_headers([g.header_tokens for g in grp])
                         for g in grp[1:]:
                             skip.add(id(g))
-            for it in its:
-                if id(it) in skip:
-                    continue
+            live = [it for it in its if id(it) not in skip]
+
+            def same_trait_impl(a, b):
+                # adjacent fns of one trait impl (`impl Ord for T { cmp, max, min, clamp }`) share one impl block
+                return (a is not None and b is not None and a.kind == 'fn' and b.kind == 'fn' and a.impl_header is not None
+                        and a.impl_header == b.impl_header and ' for ' in a.impl_header and not a.is_mp and not b.is_mp)
+            for li, it in enumerate(live):
+                prev_it = live[li - 1] if li > 0 else None
+                next_it = live[li + 1] if li + 1 < len(live) else None
                 own = (it.entry.unit == unit) and not it.assumed
                 if it.kind in ('raw', 'spec', 'struct'):
                     emit(it.full, it)
@@ -592,14 +603,16 @@ class Generator:
                     if id(it) in merged_stub:
                         body = merged_stub[id(it)]
                     if it.impl_header is not None:
-                        emit(it.impl_header + ' {')
-                        if ' for ' in it.impl_header and not it.is_mp:
-                            for ty in self.x.impl_types.get(it.impl_header, []):
-                                emit(ty)
+                        if not same_trait_impl(prev_it, it):
+                            emit(it.impl_header + ' {')
+                            if ' for ' in it.impl_header and not it.is_mp:
+                                for ty in self.x.impl_types.get(it.impl_header, []):
+                                    emit(ty)
                         if it.impl_ghost:
                             emit(it.impl_ghost)
                         emit(body, it if own else None)
-                        emit('}')
+                        if not same_trait_impl(it, next_it):
+                            emit('}')
                     else:
                         if depth > 0:
                             # a free fn that is private to its module: the generator emits impl blocks at the crate
